@@ -35,9 +35,10 @@ for _n in ("disp_serverudp", "disp_serverstream", "disp_client"):
     MODULE_OF["MC_" + _n] = MODULE_OF["GEN_" + _n] = "Dispatch.tla"
     MC_DEPTH["MC_" + _n] = None
     GEN_DEPTH["GEN_" + _n] = None
-MODULE_OF["MC_reaper"] = MODULE_OF["GEN_reaper"] = "TurnReaper.tla"
+MODULE_OF["MC_reaper"] = MODULE_OF["GEN_reaper"] = MODULE_OF["GEN_reaperS"] = "TurnReaper.tla"
 MC_DEPTH["MC_reaper"] = (10, 12)
-GEN_DEPTH["GEN_reaper"] = (8, 9)
+GEN_DEPTH["GEN_reaper"] = (7, 8)
+GEN_DEPTH["GEN_reaperS"] = (7, 8)
 for _n in ("steps",):
     MODULE_OF["MC_" + _n] = MODULE_OF["GEN_" + _n] = "TurnServerSteps.tla"
     MC_DEPTH["MC_" + _n] = None
@@ -190,11 +191,11 @@ def c13_run(ctx):
     ctx.model_check("MC_clientconn.tla", "MC_clientconn.cfg", None)
     ctx.trace_validate("clientconn", "TestClientConnTrace", "TraceClientConn.tla", "TraceClientConn.cfg", n)
     if not ctx.violations:   # real time: sixteen writers enter WriteTo at the same instant, round after round
-        ctx.trace_validate("clientconn-rt", "TestClientConnRT", "TraceClientConn.tla", "TraceClientConn.cfg", 3 if ctx.tier == "quick" else 40)
+        ctx.trace_validate("clientconn-rt", "TestClientConnRT", "TraceClientConn.tla", "TraceClientConnRT.cfg", 3 if ctx.tier == "quick" else 40)
 
 
 def c18_run(ctx):
-    core_run(["MC_steps", "MC_clienttxn", "MC_clienttxnLive"], ["GEN_steps", "GEN_tcpA", "GEN_tcpB", "GEN_lifeB", "GEN_clienttxnA"])(ctx)
+    core_run(["MC_steps", "MC_clienttxn", "MC_clienttxnLive", "MC_reaper"], ["GEN_steps", "GEN_tcpA", "GEN_tcpB", "GEN_lifeB", "GEN_clienttxnA", "GEN_reaperS"])(ctx)
     if not ctx.violations:   # the real client under the random drivers: only "did not crash, did not lock up" is judged here
         n = 30 if ctx.tier == "quick" else 300
         ctx.trace_validate("clientconn", "TestClientConnTrace", None, None, n, alive_only=True)
@@ -240,7 +241,7 @@ PROPS = {
                                            "inbound MTU 1600 and 1200, 25 boundary lengths plus random ones up to 9000, single datagrams and bursts of 3-8 that arrive before the application reads; "
                                            "every arrival must be byte-identical to something sent in that direction for that endpoint, once, truthfully attributed; within the limits it must have arrived when the execution settles"]),
     "C06": dict(title="allocation lifetime, refresh and deletion are exact", level="model_checking",
-                run=with_server_trace(core_run(["MC_time", "MC_life", "MC_stream", "MC_reaper"], ["GEN_time", "GEN_users", "GEN_relayA", "GEN_lifeA", "GEN_stream", "GEN_reaper"])),
+                run=with_server_trace(core_run(["MC_time", "MC_life", "MC_stream", "MC_reaper"], ["GEN_time", "GEN_users", "GEN_relayA", "GEN_lifeA", "GEN_stream", "GEN_reaper", "GEN_reaperS"])),
                 assumptions=BASE_ASSUME),
     "C07": dict(title="permissions and channels live one full timeout past their last refresh", level="model_checking",
                 run=with_server_trace(core_run(["MC_relay", "MC_relayB", "MC_steps"], ["GEN_relayA", "GEN_relayB", "GEN_steps"])),
@@ -292,7 +293,7 @@ PROPS = {
                              "'at once' is read as: at once on a loss-free network, and within one transaction (8 s) when transmissions are lost",
                              "'any number of peers' is not explored (4 peers); with several hundred peers the permission refresh exceeds the server's inbound MTU (observation D13 in DESIGN.md)"]),
     "C15": dict(title="server resources and lifecycle events balance through every teardown", level="model_checking",
-                run=core_run(["MC_life", "MC_tcp", "MC_steps", "MC_resv"], ["GEN_lifeA", "GEN_lifeB", "GEN_tcpB", "GEN_steps", "GEN_resv", "GEN_stream"]),
+                run=core_run(["MC_life", "MC_tcp", "MC_steps", "MC_resv", "MC_reaper"], ["GEN_lifeA", "GEN_lifeB", "GEN_tcpB", "GEN_steps", "GEN_resv", "GEN_stream", "GEN_reaper", "GEN_reaperS"]),
                 assumptions=BASE_ASSUME + ["after every step the lifecycle callbacks made during the step are compared with the spec's EvDiff (created/deleted events per allocation, permission, channel), "
                                            "the relay sockets handed out by the harness generator with the live allocations (open count, closed at most once)",
                                            "every path ends with Server.Close followed by a two-hour drain: created - deleted must be 0 for every key, AllocationCount 0, every relay socket closed, and no lifecycle event may arrive late (a timer that outlived its allocation); "
